@@ -46,6 +46,7 @@ func main() {
 	flag.StringVar(&root, "root", "", "root of the scratch copy")
 	out := flag.String("sites", "", "site table output")
 	pkgs := flag.String("pkgs", "", "comma separated package directories to instrument instead of the default colour packages")
+	withMeta := flag.Bool("meta", false, "with the default package discovery: instrument meta/* too")
 	flag.Parse()
 	if *pkgs != "" {
 		targets = strings.Split(*pkgs, ",")
@@ -64,7 +65,7 @@ func main() {
 			if rel != "." && (strings.HasPrefix(base, ".") || base == "vendor" || base == "testdata") {
 				return filepath.SkipDir
 			}
-			if rel == "meta" || strings.HasPrefix(filepath.ToSlash(rel), "meta/") {
+			if !*withMeta && (rel == "meta" || strings.HasPrefix(filepath.ToSlash(rel), "meta/")) {
 				return filepath.SkipDir
 			}
 			targets = append(targets, rel)
@@ -227,12 +228,16 @@ func (in *instr) stmt(s ast.Stmt) ast.Stmt {
 		in.changed = true
 		return &ast.ExprStmt{X: simrtCall("Send", x.Chan, x.Value)}
 	case *ast.SelectStmt:
-		// not modelled: left as it is (its comm clauses keep their real channel
-		// operations; a tree that blocks in a select trips the watchdog)
 		for _, c := range x.Body.List {
 			cc := c.(*ast.CommClause)
 			cc.Body = in.list(cc.Body)
 		}
+		if sw := in.selectStmt(x); sw != nil {
+			in.changed = true
+			return sw
+		}
+		// not modelled (a case waits on a channel fed by the runtime: timers,
+		// contexts): left as it is; a tree that blocks there trips the watchdog
 	case *ast.GoStmt:
 		in.expr(x.Call)
 		in.changed = true
@@ -275,6 +280,118 @@ func (in *instr) stmt(s ast.Stmt) ast.Stmt {
 		in.exprsIn(s)
 	}
 	return s
+}
+
+// selectStmt rewrites
+//
+//	select { case v, ok := <-a: A; case b <- e: B; default: D }
+//
+// to
+//
+//	switch _simc0, _simc1 := simrt.RecvCase(a), simrt.SendCase(b, e); simrt.Select(true, _simc0, _simc1) {
+//	case 0: v, ok := _simc0.V, _simc0.Ok; A
+//	case 1: B
+//	default: D
+//	}
+//
+// (channel operands and send values are evaluated once, in source order, as the
+// select statement does). It returns nil when a receive case names a channel
+// that the simulator cannot see being fed (a call such as time.After(d) or
+// ctx.Done(), or a timer's C field).
+func (in *instr) selectStmt(x *ast.SelectStmt) ast.Stmt {
+	unparen := func(e ast.Expr) ast.Expr {
+		for {
+			p, ok := e.(*ast.ParenExpr)
+			if !ok {
+				return e
+			}
+			e = p.X
+		}
+	}
+	recvOf := func(e ast.Expr) ast.Expr {
+		if u, ok := unparen(e).(*ast.UnaryExpr); ok && u.Op == token.ARROW {
+			return u.X
+		}
+		return nil
+	}
+	foreign := func(ch ast.Expr) bool {
+		bad := false
+		ast.Inspect(ch, func(n ast.Node) bool {
+			switch y := n.(type) {
+			case *ast.CallExpr:
+				bad = true
+			case *ast.SelectorExpr:
+				if y.Sel.Name == "C" {
+					bad = true
+				}
+			case *ast.FuncLit:
+				return false
+			}
+			return true
+		})
+		return bad
+	}
+	sw := &ast.SwitchStmt{Body: &ast.BlockStmt{}}
+	var lhs, rhs []ast.Expr
+	hasDefault := "false"
+	for _, c := range x.Body.List {
+		cc := c.(*ast.CommClause)
+		if cc.Comm == nil {
+			hasDefault = "true"
+			sw.Body.List = append(sw.Body.List, &ast.CaseClause{Body: cc.Body})
+			continue
+		}
+		name := fmt.Sprintf("_simc%d", len(lhs))
+		var prelude ast.Stmt
+		switch y := cc.Comm.(type) {
+		case *ast.SendStmt:
+			in.expr(y.Chan)
+			in.expr(y.Value)
+			rhs = append(rhs, simrtCall("SendCase", y.Chan, y.Value))
+		case *ast.ExprStmt:
+			ch := recvOf(y.X)
+			if ch == nil || foreign(ch) {
+				return nil
+			}
+			in.expr(ch)
+			rhs = append(rhs, simrtCall("RecvCase", ch))
+		case *ast.AssignStmt:
+			if len(y.Rhs) != 1 {
+				return nil
+			}
+			ch := recvOf(y.Rhs[0])
+			if ch == nil || foreign(ch) {
+				return nil
+			}
+			in.expr(ch)
+			rhs = append(rhs, simrtCall("RecvCase", ch))
+			vals := []ast.Expr{&ast.SelectorExpr{X: ast.NewIdent(name), Sel: ast.NewIdent("V")}}
+			if len(y.Lhs) == 2 {
+				vals = append(vals, &ast.SelectorExpr{X: ast.NewIdent(name), Sel: ast.NewIdent("Ok")})
+			}
+			prelude = &ast.AssignStmt{Lhs: y.Lhs, Tok: y.Tok, Rhs: vals}
+		default:
+			return nil
+		}
+		body := cc.Body
+		if prelude != nil {
+			body = append([]ast.Stmt{prelude}, body...)
+		}
+		sw.Body.List = append(sw.Body.List, &ast.CaseClause{
+			List: []ast.Expr{&ast.BasicLit{Kind: token.INT, Value: fmt.Sprint(len(lhs))}},
+			Body: body,
+		})
+		lhs = append(lhs, ast.NewIdent(name))
+	}
+	args := []ast.Expr{ast.NewIdent(hasDefault)}
+	for _, l := range lhs {
+		args = append(args, ast.NewIdent(l.(*ast.Ident).Name))
+	}
+	if len(lhs) > 0 {
+		sw.Init = &ast.AssignStmt{Lhs: lhs, Tok: token.DEFINE, Rhs: rhs}
+	}
+	sw.Tag = simrtCall("Select", args...)
+	return sw
 }
 
 func isIdent(e ast.Expr, name string) bool {
